@@ -393,6 +393,7 @@ func (l *lexer) emit(typ int) {
 	select {
 	case <-l.cancel:
 		// an error is already recorded: do not hand over another token
+		verifPoint(l, "L.bail", 0)
 		panic(bailout)
 	default:
 	}
